@@ -45,7 +45,7 @@ if os.path.exists(rp):
     rows = ['| change | origin | property | what it breaks / needs | detected by (tier) | first signature |', '|---|---|---|---|---|---|']
     for r in R['results']:
         rows.append(f"| `{r['name']}` | {r['origin']} | {r['property']} | {esc(r.get('what',''))} | {r['detected']} | `{esc(r.get('sig',''))}` |")
-    det = '\n'.join(rows) + f"\n\n({len(R['results'])} changes; run of {R.get('date','?')} against /repo {R.get('repo_head','?')}; command: `mutants/all.py`)"
+    det = '\n'.join(rows) + f"\n\n({len(R['results'])} changes; run of {R.get('date','?')} against /repo {R.get('repo_head','?')}; command: `mutants/all.py`" + ("; " + R['note'] if R.get('note') else "") + ")"
 s = open(f'{V}/DESIGN.md').read()
 for name, body in (('repairs', repairs), ('known', known), ('detection', det)):
     if not body:
